@@ -81,11 +81,11 @@ func checkC04(c *Ctx) {
 		}
 		r := c.CaseRng("e2e", i)
 		codeOk := i%3 != 2
-		c04Run(c, id, r, codeOk, c.Thorough() && i%10 == 5, model)
+		c04Run(c, id, r, codeOk, c.Thorough() && i%10 == 5, i%2 == 0, model)
 	}
 }
 
-func c04Run(c *Ctx, id string, r *rand.Rand, codeOk, forceLeadingZeroA bool, model []string) {
+func c04Run(c *Ctx, id string, r *rand.Rand, codeOk, forceLeadingZeroA, segmented bool, model []string) {
 	pin := randomValidPin(r)
 	ctrlPin := pin
 	if !codeOk {
@@ -110,6 +110,11 @@ func c04Run(c *Ctx, id string, r *rand.Rand, codeOk, forceLeadingZeroA bool, mod
 		return
 	}
 	defer cl.Close()
+	if segmented {
+		cl.seg = rand.New(rand.NewSource(r.Int63())) // requests arrive cut into several TCP segments
+		input["segmented_requests"] = true
+		c.Hist("segmented requests")
+	}
 	rr := r
 	if forceLeadingZeroA {
 		// choose the client's SRP secret so that A has a leading zero byte (A < 2^3064): minimal vs padded encodings differ
@@ -163,6 +168,16 @@ func c04Run(c *Ctx, id string, r *rand.Rand, codeOk, forceLeadingZeroA bool, mod
 		if es, _ := database.Entities(); len(es) != 1 {
 			c.Violate("pairing store changed by a pair-setup with a wrong code", id, input, "only the accessory's own entity", fmt.Sprint(len(es), " entities"))
 		}
+		// the user corrects the code: the same controller, on the same connection, now pairs
+		if true {
+			sr2 := refPairSetup(r, cl.Post(), fmtPin(pin), ident)
+			if sr2.ErrAt != "" {
+				c.Violate("specification controller that retries with the right setup code after a wrong one (same connection) cannot pair", id, input, "paired", sr2.ErrAt)
+			} else {
+				database.DeleteEntity(db.NewEntity(ctrlID, nil, nil)) // back to the unpaired state the rest of this run expects
+			}
+			c.Hist("retry after wrong code on the same connection")
+		}
 	}
 	// ---- pair-verify on a new connection
 	accLTPK := sr.AccLTPK
@@ -181,6 +196,7 @@ func c04Run(c *Ctx, id string, r *rand.Rand, codeOk, forceLeadingZeroA bool, mod
 			return
 		}
 		defer cl2.Close()
+		cl2.seg = cl.seg
 		vr = refPairVerify(r, cl2.Post(), ident, accLTPK)
 		v2ok = vr.M2SigOK
 	}
